@@ -4,6 +4,7 @@ import (
 	"fmt"
 	"regexp"
 	"sort"
+	"strconv"
 	"strings"
 
 	"github.com/aymerick/raymond"
@@ -99,6 +100,12 @@ func registerHandlebarsHelpers() {
 		}
 
 		return options.Inverse()
+	})
+
+	// Emits a value as a Go string literal, quotes included. Text that originates in user annotations
+	// (e.g. validation rules) must not be HTML-escaped by the template engine nor be able to end the literal
+	raymond.RegisterHelper("GoStringLiteral", func(value string) string {
+		return strconv.Quote(value)
 	})
 
 	raymond.RegisterHelper("LastTypeIsByAddress", func(types []definitions.FuncReturnValue, options *raymond.Options) string {
